@@ -1152,6 +1152,71 @@ def o_zero(inp):
     return None
 
 
+def _ne(e, frame):
+    """(north, east, down) of an answer in either frame"""
+    return (e[0], e[1], e[2]) if frame.upper() == 'NED' else (e[1], e[0], -e[2])
+
+
+GRAD = 3000.0        # nT per degree: generous bound on |d element / d latitude| (observed at the poles on HEAD: ~730 nT/deg)
+
+
+def o_pole(inp):
+    """a geographic pole is ONE place whatever longitude names it: Z, H, F, |I| are the same for every longitude, the horizontal
+    vector is the same earth-fixed vector (its north/east components merely turn with the longitude), everything is finite,
+    and the values join continuously (gradient x distance) with those 1e-6 and 1e-9 degrees away along each meridian"""
+    ent, fr = inp.get('entry', 'magnetic_field'), inp.get('frame', 'NED')
+    pole = float(inp['pole'])
+    name = 'north-pole' if pole > 0 else 'south-pole'
+    ref = None
+    for lo in inp['lons']:
+        e = _query(inp, lat=inp['pole'], lon=lo)
+        if e is None or not all(math.isfinite(v) for v in e):
+            return {'tag': f'{ent}/{name}-non-finite', 'observed': e, 'note': f'longitude {lo}'}
+        N, E, Dn = _ne(e, fr)
+        lam = math.radians(lo)
+        if pole > 0:      # local north points along the meridian towards the pole, i.e. to (-cos, -sin) in the polar plane
+            vx, vy = -N * math.cos(lam) - E * math.sin(lam), -N * math.sin(lam) + E * math.cos(lam)
+        else:
+            vx, vy = N * math.cos(lam) - E * math.sin(lam), N * math.sin(lam) + E * math.cos(lam)
+        inv = [Dn, e[3], e[4], abs(e[5])]
+        if ref is None:
+            ref = (lo, inv, (vx, vy))
+        else:
+            if max(abs(a - b) for a, b in zip(inv[:3], ref[1][:3])) > 1e-6 or abs(inv[3] - ref[1][3]) > 1e-9:
+                return {'tag': f'{ent}/{name}-depends-on-longitude', 'observed': inv, 'expected': ref[1],
+                        'note': f'(down, H, F, |I|) at longitude {lo} vs longitude {ref[0]}'}
+            if max(abs(vx - ref[2][0]), abs(vy - ref[2][1])) > 1e-6:
+                return {'tag': f'{ent}/{name}-horizontal-vector-not-earth-fixed', 'observed': [vx, vy], 'expected': list(ref[2]),
+                        'note': f'longitude {lo} vs longitude {ref[0]}'}
+        for eps in (1e-6, 1e-9):
+            nb = _query(inp, lat=pole - math.copysign(eps, pole), lon=lo)
+            if nb is None or not all(math.isfinite(v) for v in nb):
+                return {'tag': f'{ent}/{name}-neighbour-non-finite', 'observed': nb}
+            tol = GRAD * eps + 2e-5
+            d = max(abs(a - b) for a, b in zip(e[:5], nb[:5]))
+            da = max(_angdiff(e[5], nb[5]), _angdiff(e[6], nb[6]))
+            if d > tol or da > 4 * math.degrees(tol / max(e[3], 1.0)) + 1e-8:
+                return {'tag': f'{ent}/{name}-discontinuous', 'observed': e, 'expected': nb,
+                        'note': f'longitude {lo}: pole vs {eps} degrees away: {d} nT, {da} degrees'}
+    return None
+
+
+def o_dateline(inp):
+    """+180, -180 and their immediate neighbours on either side are the same place to within 1e-9 degrees"""
+    ent = inp.get('entry', 'magnetic_field')
+    es = [(lo, _query(inp, lon=lo)) for lo in (180.0, -180.0, 180.0 - 1e-9, -180.0 + 1e-9, 180, -180)]
+    ref = es[0][1]
+    if ref is None:
+        return None
+    for lo, e in es[1:]:
+        if e is None:
+            return {'tag': f'{ent}/date-line-no-answer', 'observed': None, 'note': f'longitude {lo!r}'}
+        d = elem_diff(ref, e)
+        if d[0] > 1e-4 or d[1] > 1e-6:
+            return {'tag': f'{ent}/date-line-discontinuous', 'observed': e, 'expected': ref, 'note': f'longitude {lo!r} vs 180.0'}
+    return None
+
+
 class _FakeMeta(type(datetime.date)):
     def __instancecheck__(cls, inst):
         return isinstance(inst, datetime.date)
@@ -1243,7 +1308,7 @@ def o_types(inp):
     return None
 
 
-ORACLES = {'two_objects': o_two_objects, 'types': o_types, 'sequence': o_sequence, 'ctor': o_ctor, 'consistency': o_consistency, 'frames': o_frames, 'lon180': o_lon180,
+ORACLES = {'pole': o_pole, 'dateline': o_dateline, 'two_objects': o_two_objects, 'types': o_types, 'sequence': o_sequence, 'ctor': o_ctor, 'consistency': o_consistency, 'frames': o_frames, 'lon180': o_lon180,
            'zero': o_zero, 'default_date': o_default_date}
 
 
@@ -1378,6 +1443,20 @@ def search(ctx, scale):
             inp = {'entry': ent, 'lat': la, 'lon': lo, 'h': int(rng.integers(0, 4)), 'year': int(rng.integers(2015, 2030)),
                    'frame': 'ENU' if i % 4 == 1 else 'NED'}
             ctx.check('types', inp, _call('types', inp), nontrivial_key=(ent, _place_class(la, lo), inp['frame']))
+    # the poles as single places; the date line
+    for i in range(6 * scale):
+        d = EDGE_DATES[i % len(EDGE_DATES)] if i % 2 else _rand_date(rng)
+        h = 0.0 if i % 3 == 0 else float(np.round(rng.uniform(0, 100), 1))
+        lons = [0.0, 45.0, -45.0, 90.0, -90.0, 180.0, -180.0, float(rng.uniform(-180, 180)), int(rng.integers(-180, 181))]
+        for pole in (90.0, -90.0, 90, -90)[:(4 if i % 3 == 0 else 2)]:
+            for ent in ('magnetic_field', 'constructor'):
+                fr = 'ENU' if (i + (ent == 'constructor')) % 2 else 'NED'
+                inp = {'entry': ent, 'date': d, 'pole': pole, 'lat': pole, 'lon': 0.0, 'h': h, 'frame': fr, 'lons': lons}
+                ctx.check('pole', inp, _call('pole', inp), nontrivial_key=(ent, fr, pole, _kind(d), h == 0))
+        for la in (0.0, float(np.round(rng.uniform(-89, 89), 1)), float(rng.choice([60.0, -75.0, 55.0, 89.999]))):
+            for ent in ('magnetic_field', 'constructor'):
+                inp = {'entry': ent, 'date': d, 'lat': la, 'lon': 180.0, 'h': h, 'frame': 'ENU' if i % 2 else 'NED'}
+                ctx.check('dateline', inp, _call('dateline', inp), nontrivial_key=(ent, inp['frame'], round(la)))
     for t in ([2021, 6, 1], [2027, 2, 3]):
         inp = {'today': t, 'lat': 48.13723, 'lon': 11.575508, 'h': 0.521}
         ctx.check('default_date', inp, _call('default_date', inp), nontrivial_key=tuple(t))
